@@ -103,4 +103,16 @@ PROPS["C09"] = dict(
     technique="contract-based deductive verification (Verus on mechanically extracted real bodies; Kani function contracts for try_or/try_and/try_boolean)",
 )
 
+PROPS["C18"] = dict(
+    level="proof",
+    text="get/insert/remove laws for array elements: array_index and Vec<Value>::{get_value,insert_value,remove_value} (real bodies, Verus, unbounded lengths, both padding loops with invariants and termination) against whole-sequence specs; the C18 laws are lemmas over those specs",
+    verus=["v_crud_vec"],
+    kani=[],
+    trusted=["verus prelude crud.rs: abstract Value; spec functions spec_index/spec_get/spec_insert/spec_remove are the reading of the property for arrays (non-negative index: positions from the front, padding null; negative index: positions from the back)",
+             "std contracts: mem::replace (assume_specification), vstd Vec::push/insert/remove/index specs",
+             "preconditions: key > isize::MIN and len + |key| < isize::MAX (their complement is the memory-exhaustion case C04 excludes)"],
+    not_covered=["recursive crud::{insert,get,remove} over multi-segment paths and ObjectMap delegation to BTreeMap (std)", "pruning on removal", "quoted-field path segments (parser, C20)"],
+    technique="contract-based deductive verification (Verus on mechanically extracted real bodies, loop invariants + decreases)",
+)
+
 HOOK_COMMITS = ["8978857", "33091a8"]
